@@ -268,6 +268,18 @@ func vhDataB(shape int, b *vhB) map[string]interface{} {
 		return map[string]interface{}{b.anyKey(): map[string]interface{}{}}
 	case 9:
 		return map[string]interface{}{b.anyKey(): []interface{}{}}
+	case 10:
+		k1, k2 := b.anyKey(), b.anyKey()
+		vhDistinct(k1, k2)
+		return map[string]interface{}{k1: []interface{}{}, k2: b.scalar2()}
+	case 11:
+		k1, k2 := b.anyKey(), b.anyKey()
+		vhDistinct(k1, k2)
+		return map[string]interface{}{k1: map[string]interface{}{}, k2: b.scalar2()}
+	case 12:
+		k1, k2 := b.anyKey(), b.anyKey()
+		vhDistinct(k1, k2)
+		return map[string]interface{}{k1: []interface{}{b.scalar2()}, k2: b.scalar2()}
 	}
 	vassume(false)
 	return nil
@@ -318,5 +330,93 @@ func VH_C05_init(pshape, dshape int) {
 	vassert(vdeepEq(map[string]interface{}(bs), bs0), "initial-bindings-unmodified")
 	vassert(vdeepEq(p, p0), "pattern-unmodified")
 	vassert(vdeepEq(d, d0), "data-unmodified")
+	vreach("end")
+}
+
+// ---- Go-typed inputs that must be cast (core.Map, []string, []Map, ints) -------------
+
+// vhNorm converts Go-typed containers and ints to the generic JSON form (the reference
+// reading of "must be cast").
+func vhNorm(x interface{}) interface{} {
+	switch v := x.(type) {
+	case Map:
+		n := map[string]interface{}{}
+		for k, e := range v {
+			n[k] = vhNorm(e)
+		}
+		return n
+	case map[string]interface{}:
+		n := map[string]interface{}{}
+		for k, e := range v {
+			n[k] = vhNorm(e)
+		}
+		return n
+	case []interface{}:
+		n := make([]interface{}, len(v))
+		for i, e := range v {
+			n[i] = vhNorm(e)
+		}
+		return n
+	case []string:
+		n := make([]interface{}, len(v))
+		for i, e := range v {
+			n[i] = e
+		}
+		return n
+	case []Map:
+		n := make([]interface{}, len(v))
+		for i, e := range v {
+			n[i] = vhNorm(e)
+		}
+		return n
+	case int:
+		return float64(v)
+	}
+	return x
+}
+
+// VH_C05_typed: the same pattern/data pair in a Go-typed spelling must match exactly like
+// its generic spelling.
+func VH_C05_typed(variant int) {
+	b := &vhB{prefix: "t", lite: true}
+	s1, s2 := b.str(), b.str()
+	vassume(s1 != s2)
+	n1 := b.num()
+	var p, d interface{}
+	switch variant {
+	case 0: // core.Map below a generic map (data)
+		p = map[string]interface{}{"d": map[string]interface{}{"k": "?x"}}
+		d = map[string]interface{}{"d": Map{"k": s1, "o": n1}}
+	case 1: // []string below a generic map (data)
+		p = map[string]interface{}{"d": []interface{}{"?x"}}
+		d = map[string]interface{}{"d": []string{s1, s2}}
+	case 2: // core.Map at the top, generic below, core.Map below that
+		p = Map{"d": map[string]interface{}{"k": map[string]interface{}{"z": "?x"}}}
+		d = Map{"d": map[string]interface{}{"k": Map{"z": s1}}}
+	case 3: // core.Map below a generic map (pattern)
+		p = map[string]interface{}{"d": Map{"k": "?x"}}
+		d = map[string]interface{}{"d": map[string]interface{}{"k": s1}}
+	case 4: // []Map in data, below a generic map
+		p = map[string]interface{}{"d": []interface{}{map[string]interface{}{"k": "?x"}}}
+		d = map[string]interface{}{"d": []Map{{"k": s1}, {"k": s2}}}
+	case 5: // all core.Map / []string
+		p = Map{"d": Map{"k": []string{"?x"}}}
+		d = Map{"d": Map{"k": []string{s1, s2}}}
+	case 6: // Go int as a map value (cast by the matcher's fudge)
+		p = map[string]interface{}{"n": "?x", "m": 3}
+		d = map[string]interface{}{"n": s1, "m": 3.0}
+	case 7: // []string in the pattern
+		p = map[string]interface{}{"d": []string{s1}}
+		d = map[string]interface{}{"d": []interface{}{s1, s2}}
+	}
+	got, err := Matches(nil, p, d)
+	vassert(err == nil, "no-error-in-fragment")
+	want := vhRef(vhNorm(p), vhNorm(d), []vhRes{{true, map[string]interface{}{}}})
+	// bindings may carry the uncast values: compare after normalising them
+	var gotN []Bindings
+	for _, g := range got {
+		gotN = append(gotN, Bindings(vhNorm(map[string]interface{}(g)).(map[string]interface{})))
+	}
+	vassert(vhSetEq(gotN, want), "typed-input-matches-like-generic")
 	vreach("end")
 }
